@@ -507,6 +507,7 @@ func vcExists[T any](f func(T) bool) bool {
 var vcReplayU64 []uint64
 func vcArr[T any](s []T) uint64 { if cap(s) == 0 { return 0 }; return uint64(uintptr(vcUnsafe.Pointer(vcUnsafe.SliceData(s[:cap(s)])))) }
 func vcOff[T any](s []T) int { return 0 }
+func vcPreElem[T any](s []T, k int) T { panic("vcPreElem: pre-state elements are not available at replay time") }
 func vcFresh[T any](p *T) bool { return true }
 func vcFreshSlice[T any](s []T) bool { return true }
 func vcUnchanged[T any](p *T) bool { return true }
